@@ -10,6 +10,9 @@ NOTE = ("Trusted base: Coq 8.16.1 kernel (vm_compute in closed-term lemmas, no n
         "canonicalisation); tools/py2v.py for generated units. The theorems are about hand-written Gallina models; the "
         "models are tied to /repo by the correspondence run of this check (and by the translator where stated). ")
 CLAIMED = {
+ 'C13': dict(cat='proof', tech='Coq theorems about the accumulating-fold shape of every converter (additivity, per-ballot image, order-freedom, weight conservation; any profile, any image) + extraction-based correspondence of 15 modelled converters and impl-side additivity checks on all profile splits',
+             text='For the fold [conv image] that every modelled converter instantiates: conv(A++B) = conv(A)+conv(B), single-ballot image, value = weighted sum of images, ballot-order independence and weight conservation for one-item images are proved for all profiles and all images at once (keys compared by a proved-correct structural equality). The images (first preference, approved set, positional scores for six rank scorers, ordered pairs with unranked-at-bottom, sub-rankings, parties, ...) are tied to convert.py / vote.py / rankscore.py by differential runs, and additivity is also evaluated on the implementation for all splits of small profiles. Four defects found this way (TypeError in two converters, lost votes, multi-character names) were repaired by fix: commits.',
+             ref='DESIGN.md 3 C13', note='Modelled, not verified: the converters of convert.py listed in harness/props/c13.py KINDS. Impl-side checks only: VoteTotals, ConstituencyTotals, InvertedSimpleVotes, Chain. Not covered: RoundedVotes (not additive by nature), GroupVotesByParty, first-n images containing shared ranks.'),
  'C20': dict(cat='proof', tech='Coq iff-theorems (acceptance <-> declarative rule) over a Gallina model of the five validators, three nominators, the magnitude checker and InvalidVoteEliminator, for every object of the ballot grammar and every configuration + extraction-based correspondence over the grammar',
              text='validate = Ok <-> declarative rule proved for Simple, Approval, Ranked and both Score validators over the full object grammar (wrong containers, nested collections, numbers, None, every candidate kind) and all bound/nominator configurations; the filter theorem for InvalidVoteEliminator; no-crash theorems for simple/approval. Model tied to vote.py/candidate.py/convert.py by a grammar-driven differential run (frozensets encoded in CPython iteration order so that even the error kind is compared). A genuine defect (score ballot naming a candidate twice accepted) was repaired by a fix: commit; the eliminator re-raising CandidateError is a known finding.',
              ref='DESIGN.md 3 C20', note='Modelled, not verified: vote.py validators, candidate.py nominators, convert.InvalidVoteEliminator (Model/Validate.v). Crash-freedom for ranked/score validators holds only for hashable items and numeric scores (stated in the iff theorems; non-numeric scores are outside the quantifier).'),
